@@ -354,7 +354,28 @@ func (g *g) callE(d int, minRet int) *N {
 
 func (g *g) root() *N {
 	d := g.n(1, 3, "depth")
-	switch g.n(0, 12, "root") {
+	switch g.n(0, 13, "root") {
+	case 13:
+		// the "value, found" statement: two targets, ONE index expression on the right
+		g.f("value_found_statement")
+		var cont *N
+		switch g.n(0, 3, "vfcont") {
+		case 0:
+			cont = g.leaf(&N{K: "map", Ns: []*N{Str("k"), Int(int64(g.n(1, 9, "vfv"))), Str("n"), {K: "nil"}}}, true)
+		case 1:
+			cont = Id("accm")
+		case 2:
+			cont = Id("hnil")
+		default:
+			cont = g.leaf(&N{K: "list", Ns: []*N{Int(5), {K: "nil"}, Int(7)}}, true)
+		}
+		var key *N
+		if cont.K == "p" && cont.Ns[0].K == "list" {
+			key = g.leaf(Int(int64(g.n(0, 2, "vfi"))), true)
+		} else {
+			key = g.leaf(Str(rapid.SampledFrom([]string{"k", "n", "missing"}).Draw(g.t, "vfk")), true)
+		}
+		return &N{K: "letmap", Ps: []string{"x", "y"}, Ns: []*N{cont, key}}
 	case 0, 1, 2:
 		return &N{K: "expr", Ns: []*N{g.anyE(d)}}
 	case 3:
